@@ -92,6 +92,7 @@ type IOCfg struct {
 	Sector    int // bytes per sector write
 	FileChunk int // max bytes per Read of an open regular file (0 = unlimited)
 	StdoutTTY bool
+	Env       [][2]string
 }
 
 // runProc runs one process on fs (which it may modify).
@@ -106,6 +107,12 @@ func runProc(fs *simos.FS, spec ProcSpec, io IOCfg, prevStdout []byte) ProcResul
 		FS:     fs,
 		Sector: io.Sector, FileChunk: io.FileChunk, StdoutTTY: io.StdoutTTY,
 		Faults: append([]simos.Fault(nil), spec.Faults...),
+	}
+	if len(io.Env) > 0 {
+		p.Env = map[string]string{}
+		for _, kv := range io.Env {
+			p.Env[kv[0]] = kv[1]
+		}
 	}
 	if s := spec.Stdin; s != nil {
 		st := &simos.Stream{Plan: s.Plan, EOFWithData: s.EOFWithData, Redirect: s.Redirect}
